@@ -146,7 +146,7 @@ func runC11(r *Report) {
 			if c == nil || !CalleeOf(c).Is("SessionManager.getClientIDFromConnection") {
 				continue
 			}
-			if originSummary(Arg(c, 0)) != "field:StreamPacket.ConnectionID(param:"+param.Name()+")" {
+			if originSummary(Arg(c, 0)) != "field:StreamPacket.ConnectionID(param:"+canonParamName(param)+")" {
 				continue
 			}
 			k, isC := ConstInt(bo.Y)
@@ -485,7 +485,7 @@ func runC11(r *Report) {
 					nAsk++
 					o := originSummary(Arg(c, 0))
 					for i, hp := range h.Params {
-						if i < len(hc.Call.Args) && o == "param:"+hp.Name() {
+						if i < len(hc.Call.Args) && o == "param:"+canonParamName(hp) {
 							o = originSummary(hc.Call.Args[i])
 						}
 					}
